@@ -5,8 +5,8 @@
 (*   fs      : path -> [c (content id), m (mtime)]            (partial function as a set of recs) *)
 (*   index   : set of [p, m, c]   what the last scan recorded                                    *)
 (*   cache   : [st: "absent" | "complete" | "torn", idx, k]                                       *)
-(* Assumption made explicit: the clock is monotone - every write of file content gets a new      *)
-(* mtime (Touch bumps the mtime only; Rename keeps it).                                          *)
+(* Assumption made explicit: every write of file content gets an mtime never used before for that  *)
+(* path (newer, or older for a restored file); Touch changes the mtime only; Rename keeps it.       *)
 EXTENDS Integers, Sequences, FiniteSets, TLC, Json
 CONSTANTS D, Paths, Contents
 VARIABLES fs, clock, index, cache, hist
@@ -26,6 +26,10 @@ Init == fs = {} /\ clock = 1 /\ index = {} /\ cache = [st |-> "absent", idx |-> 
 Log(o) == hist' = Append(hist, o)
 Write(p, c) == /\ fs' = {x \in fs : x.p # p} \cup {[p |-> p, c |-> c, m |-> clock]}
                /\ clock' = clock + 1 /\ Log([op |-> "Write", p |-> p, c |-> c]) /\ UNCHANGED <<index, cache>>
+(* a file restored from elsewhere keeps an OLDER modification time (mv, cp -p, package restore): the    *)
+(* clock is not monotone, only distinct - a changed content never comes with the same (path, mtime)     *)
+WriteOld(p, c) == /\ fs' = {x \in fs : x.p # p} \cup {[p |-> p, c |-> c, m |-> 0 - clock]}
+                  /\ clock' = clock + 1 /\ Log([op |-> "WriteOld", p |-> p, c |-> c]) /\ UNCHANGED <<index, cache>>
 Remove(p) == /\ p \in PathsIn(fs) /\ fs' = {x \in fs : x.p # p}
              /\ Log([op |-> "Remove", p |-> p]) /\ UNCHANGED <<clock, index, cache>>
 Touch(p) == /\ p \in PathsIn(fs)
@@ -45,7 +49,7 @@ Load == /\ cache.st # "absent"
         /\ Log([op |-> "Load"]) /\ UNCHANGED <<fs, clock, cache>>
 
 Next == /\ Len(hist) < D
-        /\ \/ \E p \in Paths, c \in Contents : Write(p, c)
+        /\ \/ \E p \in Paths, c \in Contents : Write(p, c) \/ WriteOld(p, c)
            \/ \E p \in Paths : Remove(p) \/ Touch(p)
            \/ \E p, q \in Paths : Rename(p, q)
            \/ Refresh \/ Save \/ Crash \/ Load
@@ -60,5 +64,5 @@ EntriesFaithful == \A e \in index : \A x \in fs : (x.p = e.p /\ x.m = e.m) => x.
 CacheFaithful == \A e \in cache.idx : \A x \in fs : (x.p = e.p /\ x.m = e.m) => x.c = e.c
 
 (* flow G: histories that end with a Refresh are printed for the harness *)
-Emit == (LastIs("Refresh") /\ \E i \in DOMAIN hist : hist[i].op \in {"Write"}) => PrintT("H|" \o ToJson(hist))
+Emit == (LastIs("Refresh") /\ \E i \in DOMAIN hist : hist[i].op \in {"Write", "WriteOld"}) => PrintT("H|" \o ToJson(hist))
 =============================================================================
